@@ -218,6 +218,8 @@ class Parser:
                 value_stack = ip.parser_state.value_stack
                 # the stack is empty when the token is the first one of the Mapfile
                 previous = value_stack[-1] if value_stack else None
+                # keywords are case-insensitive: compare the previous token's text in upper case
+                previous = previous.upper() if isinstance(previous, str) else None
                 if t.type == "UNQUOTED_STRING":
                     # Unquoted strings after SYMBOL can only be values, not attributes
                     if (
